@@ -4,8 +4,10 @@ cd "$(dirname "$0")/.."
 tier="${1:-quick}"; missed=0
 for d in seeded/*/; do
   pid=$(basename "$d" | cut -d- -f1)
-  out=$(tools/seedtest.sh "$d" "$pid" "$tier" | head -1)
-  if echo "$out" | grep -q "check_exit=1"; then echo "ok     $(basename $d)"; else echo "MISSED $(basename $d): $out"; missed=$((missed+1)); fi
+  full=$(tools/seedtest.sh "$d" "$pid" "$tier" | head -3)
+  out=$(echo "$full" | head -1)
+  n=$(echo "$full" | grep -o "([0-9]* case(s))" | head -1 | tr -dc 0-9)
+  if echo "$out" | grep -q "check_exit=1"; then echo "ok     $(basename $d) cases=${n:-?}"; else echo "MISSED $(basename $d): $out"; missed=$((missed+1)); fi
 done
 echo "missed=$missed"
 exit $missed
